@@ -57,37 +57,48 @@ Fixpoint resync_all (s : store) (keys : list bytes) (os : list obs) : store :=
   | _, _ => s
   end.
 
-Definition model_step_ok (keys : list bytes) (s : store) (st : stp) : bool * store :=
-  let '(s1, e) := model_step msort s (sop st) in
-  let exact := (e =? serr st) && all2 (fun k o => obs_eqb (model_obs s1 k) o) keys (sobs st) in
+(* the store the harness read after the step: the restored copy after a successful ORestore
+   (whether or not the history goes on with it), else the current store *)
+Definition view_after (o : op) (before after : store * option store) : store :=
+  match o, snd before with
+  | ORestore _, Some bs => bs
+  | _, _ => fst after
+  end.
+
+Definition model_step_ok (keys : list bytes) (sb : store * option store) (st : stp) : bool * (store * option store) :=
+  let s := fst sb in
+  let '(sb1, e) := model_bstep msort sb (sop st) in
+  let s1 := fst sb1 in
+  let b1 := snd sb1 in
+  let exact := (e =? serr st) && all2 (fun k o => obs_eqb (model_obs (view_after (sop st) sb sb1) k) o) keys (sobs st) in
   match sop st with
   | OBatch adds dels =>
       if e =? 0 then
         let near := all2 (fun k o => upto_new_b (old_survivors s dels k) (fst (rdb_for_each s1 k)) (vals o)) keys (sobs st) in
         let s2 := resync_all s1 keys (sobs st) in
-        ((e =? serr st) && near && all2 (fun k o => obs_eqb (model_obs s2 k) o) keys (sobs st), s2)
-      else (exact, s1)
-  | _ => (exact, s1)
+        ((e =? serr st) && near && all2 (fun k o => obs_eqb (model_obs s2 k) o) keys (sobs st), (s2, b1))
+      else (exact, sb1)
+  | _ => (exact, sb1)
   end.
 
-Fixpoint model_steps_ok (keys : list bytes) (s : store) (sts : list stp) : bool :=
+Fixpoint model_steps_ok (keys : list bytes) (s : store * option store) (sts : list stp) : bool :=
   match sts with
   | [] => true
   | st :: r => let '(ok, s1) := model_step_ok keys s st in ok && model_steps_ok keys s1 r
   end.
 
 (* correspondence: the model computes what the implementation returned *)
-Definition model_ok (c : case) : bool := model_steps_ok (ckeys c) empty_store (csteps c).
+Definition model_ok (c : case) : bool := model_steps_ok (ckeys c) (empty_store, None) (csteps c).
 
 (* for replay files: error class and readings of the model after every step *)
-Fixpoint model_trace (keys : list bytes) (s : store) (sts : list stp) : list (N * list (list bytes)) :=
+Fixpoint model_trace (keys : list bytes) (s : store * option store) (sts : list stp) : list (N * list (list bytes)) :=
   match sts with
   | [] => []
-  | st :: r => let '(sm, e) := model_step msort s (sop st) in     (* the model's own result, stable sort *)
+  | st :: r => let '(sm, e) := model_bstep msort s (sop st) in    (* the model's own result, stable sort *)
                let '(_, s1) := model_step_ok keys s st in          (* goes on from the observed order *)
-               (e, map (fun k => fst (rdb_for_each sm k)) keys) :: model_trace keys s1 r
+               (e, map (fun k => fst (rdb_for_each (view_after (sop st) s sm) k)) keys) :: model_trace keys s1 r
   end.
-Definition model_out (c : case) := model_trace (ckeys c) empty_store (csteps c).
+Definition model_out (c : case) := model_trace (ckeys c) (empty_store, None) (csteps c).
 
 (* ---------------------------------------------------------------- property *)
 
@@ -110,8 +121,9 @@ Definition read_ok (o : obs) : bool :=
   | v :: _ => (find_err o =? 0) && bytes_eqb (find_val o) v && negb (present o =? 0)
   end.
 
-(* one step, judged on observations only: pre = map seen before, post = map seen after *)
-Definition spec_step_ok (keys : list bytes) (pre : smap) (st : stp) : bool :=
+(* one step, judged on observations only: pre = map seen before, post = map seen after,
+   snap = map seen when the latest backup into the backup directory was taken *)
+Definition spec_step_ok (keys : list bytes) (pre : smap) (snap : option smap) (st : stp) : bool :=
   let post := seen keys (sobs st) in
   let failed := negb (serr st =? 0) in
   (length keys =? length (sobs st))%nat && forallb read_ok (sobs st) &&
@@ -128,13 +140,31 @@ Definition spec_step_ok (keys : list bytes) (pre : smap) (st : stp) : bool :=
                    forallb (fun k => upto_new_b (length (remove_avail (vals_of k dels) (pre k))) (m' k) (post k)) keys
       | None => failed && same_on keys post pre
       end
-  | OBackupRestore | OReopen => negb failed && same_on keys post pre
+  | OBackupRestore | OReopen | OBackup => negb failed && same_on keys post pre
+  | ORestore _ =>                     (* post = the content of the restored copy *)
+      match snap with
+      | Some bm => negb failed && same_on keys post bm
+      | None => failed && same_on keys post pre
+      end
   end.
 
-Fixpoint spec_steps_ok (keys : list bytes) (pre : smap) (sts : list stp) : bool :=
+(* the maps the next step starts from: a restored copy is the current store only with cont *)
+Definition spec_next (keys : list bytes) (pre : smap) (snap : option smap) (st : stp) : smap * option smap :=
+  let post := seen keys (sobs st) in
+  match sop st with
+  | OBackup => (post, Some post)
+  | ORestore cont => match snap with
+                     | Some _ => (if cont then post else pre, snap)
+                     | None => (post, snap)
+                     end
+  | _ => (post, snap)
+  end.
+
+Fixpoint spec_steps_ok (keys : list bytes) (pre : smap) (snap : option smap) (sts : list stp) : bool :=
   match sts with
   | [] => true
-  | st :: r => spec_step_ok keys pre st && spec_steps_ok keys (seen keys (sobs st)) r
+  | st :: r => spec_step_ok keys pre snap st &&
+               let '(pre1, snap1) := spec_next keys pre snap st in spec_steps_ok keys pre1 snap1 r
   end.
 
 (* every key an operation names must be in the alphabet, else "unchanged elsewhere" is not checked *)
@@ -143,10 +173,10 @@ Definition op_keys_in (keys : list bytes) (o : op) : bool :=
   match o with
   | OAdd k _ | ODel k _ => key_in keys k
   | OBatch adds dels => forallb (fun p => key_in keys (fst p)) (adds ++ dels)
-  | OBackupRestore | OReopen => true
+  | OBackupRestore | OReopen | OBackup | ORestore _ => true
   end.
 
 (* the property itself, evaluated on the implementation's observations *)
 Definition spec_ok (c : case) : bool :=
   forallb (fun st => op_keys_in (ckeys c) (sop st)) (csteps c) &&
-  spec_steps_ok (ckeys c) m_empty (csteps c).
+  spec_steps_ok (ckeys c) m_empty None (csteps c).
